@@ -5,7 +5,7 @@ from props import _generic as g
 def run(ctx):
     fns = g.run_pyvc(ctx, "C06")
     res = ctx.cvc(["II", "IO", "OO"] if ctx.tier == "quick" else ["II", "IO", "OO", "LF", "QQ", "OI"], ["F-STATE"], functions=["bucket_getstate", "BTree_getstate"])
-    res2 = ctx.cvc(["OO"], ["F-STATE"], functions=["_bucket_setstate"])
+    res2 = ctx.cvc(["OO"], ["F-STATE"], functions=["_bucket_setstate", "_set_setstate"])
     from lib import replay
     replay.replay_fstate(ctx, res)
     replay.replay_fstate(ctx, res2)
